@@ -292,10 +292,16 @@ class Parser:
                     if flag:
                         flag = False
                     else:
-                        self._parse_subtree(current)
+                        self._parse_split(current)
+                        flag = True
 
                 case TokenType.BRACKET_RIGHT:
-                    break
+                    if flag:
+                        break
+
+                    # a split with a single, empty alternative
+                    self._read_token()
+                    flag = True
 
                 case TokenType.FLOAT:
                     current = self._parse_node(current)
@@ -311,8 +317,12 @@ class Parser:
                     flag = True
 
                 case TokenType.OR:
-                    current = root
-                    self._read_token()
+                    if flag:
+                        current = root
+                        self._read_token()
+                    else:  # a split whose first alternative is empty
+                        self._parse_split(current)
+
                     flag = True
 
                 case TokenType.COMMENT:
@@ -325,6 +335,11 @@ class Parser:
                     raise TokenTypeError(token, excepted)
 
             current.tokens.append(token)
+
+    def _parse_split(self, root: ASTNode) -> None:
+        # the opening bracket is already consumed: ALT | ALT | ... )
+        self._parse_subtree(root)
+        self._assert_and_cunsume(TokenType.BRACKET_RIGHT)
 
     def _parse_node(self, root: ASTNode) -> ASTNode:
         # FLOAT FLOAT FLOAT FLOAT )
